@@ -16,9 +16,10 @@ def run(ctx):
     s0 = rxcommon.drive(ctx, "u2", ["-scn", scn], "TLC-generated behaviours, concretised", env=ENV)
     s1 = rxcommon.drive(ctx, "frag", ["-frag", 200 if thorough else 24, "-maxcuts", 400 if thorough else 100],
                         "every 1-cut / sampled 2-cuts / random cut sets", env=ENV)
+    sk = rxcommon.drive(ctx, "kinds", ["-kinds", 6 if thorough else 1], "every package kind on its own, every 1-cut", env=ENV)
     s2 = rxcommon.drive(ctx, "small", ["-small", 40 if thorough else 8], "short responses, all 2^(n-1) cut sets", env=ENV)
     s3 = rxcommon.drive(ctx, "reads", ["-reads", 60 if thorough else 8], "read partitions through the transport", env=ENV)
-    ctx.extra.update({"u2_runs": s0["runs"], "frag_runs": s1["runs"], "small_runs": s2["runs"], "reader_runs": s3["runs"],
+    ctx.extra.update({"u2_runs": s0["runs"], "frag_runs": s1["runs"], "small_runs": s2["runs"], "kinds_runs": sk["runs"], "reader_runs": s3["runs"],
                       "delivered_package_kinds": s1["kinds"]})
     ctx.assumptions += [
         "a DONE with status 0 occurs only as the last package of a response; no tokenless packages (unknown tokens swallow the rest of the message by design). Header-only packets inside a response and as its EOM packet are part of the packetisations",
